@@ -16,6 +16,7 @@ const T_IDENT: u32 = 3;
 const T_LIT: u32 = 4;
 const T_BIGLIT: u32 = 5;
 const T_RANGE: u32 = 6;
+const T_CHAIN: u32 = 7;
 
 const AR: [&str; 5] = ["+", "-", "*", "/", "%"];
 const CMP: [&str; 6] = ["<", "<=", ">", ">=", "==", "!="];
@@ -224,6 +225,40 @@ impl Check for C06 {
                 cases.push(Case::new(ctxt.replace('@', big), T_BIGLIT, big.to_string()));
             }
         }
+        // every descending or empty range over the grid is the empty list
+        for &a in &g {
+            for &b in &g {
+                if b <= a {
+                    cases.push(Case::new(
+                        format!("a := {}\nb := {}\nprint(a .. b)\n", lit(a), lit(b)),
+                        T_RANGE,
+                        format!("{} {}", a, b),
+                    ));
+                }
+            }
+        }
+        // three-operand chains: evaluated left to right, every step exact or reported
+        let small: Vec<i64> = {
+            let max = i64::MAX;
+            let min = i64::MIN;
+            vec![0, 1, -1, 2, -2, 3037000500, -3037000500, 1 << 62, -(1 << 62), max, max - 1, min, min + 1, 4611686018427387905]
+        };
+        for &a in &small {
+            for &b in &small {
+                for &c3 in &small {
+                    for o1 in ["+", "-", "*"] {
+                        for o2 in ["+", "-", "*"] {
+                            cases.push(Case::new(
+                                format!("x := {}\nprint(x {} {} {} {})\n", lit(a), o1, lit(b), o2, lit(c3)),
+                                T_CHAIN,
+                                format!("{} {} {} {} {}", a, o1, b, o2, c3),
+                            ));
+                        }
+                    }
+                }
+            }
+        }
+        ctx.judge(std::mem::take(&mut cases), |c, r, o| self.oracle(c, r, o))?;
         // ranges
         for &a in &g {
             for d in -2i128..=6 {
@@ -322,6 +357,33 @@ impl Check for C06 {
             T_BIGLIT => {
                 if o.class != Class::Err || !o.stdout.is_empty() {
                     return viol("literal-too-large", format!("{:?}: a literal above 2^63-1 must be rejected before anything runs: {:?} {:?}", c.src, o.class, o.out_str()));
+                }
+                Verdict::Pass
+            }
+            T_CHAIN => {
+                // x o1 b o2 c with the tiers of the language: `*` binds tighter than `+ -`,
+                // equal tiers group left to right
+                let a: i64 = p[0].parse().unwrap();
+                let b: i64 = p[2].parse().unwrap();
+                let c3: i64 = p[4].parse().unwrap();
+                let (o1, o2) = (p[1], p[3]);
+                let tight = |o: &str| o == "*";
+                let result: Option<i128> = if tight(o2) && !tight(o1) {
+                    exact(o2, b, c3).and_then(|t| exact(o1, a, t as i64))
+                } else {
+                    exact(o1, a, b).and_then(|t| exact(o2, t as i64, c3))
+                };
+                match result {
+                    Some(v) => {
+                        if o.class != Class::Ok || o.out_str() != format!("{}\n", v) {
+                            return viol("inexact-result", format!("{} {} {} {} {} must be {}: {:?} {:?} {}", a, o1, b, o2, c3, v, o.class, o.out_str(), o.msg));
+                        }
+                    }
+                    None => {
+                        if o.class != Class::Err {
+                            return viol("unreported-overflow", format!("{} {} {} {} {}: an intermediate or final result does not fit, but the run ended {:?} printing {:?}", a, o1, b, o2, c3, o.class, o.out_str()));
+                        }
+                    }
                 }
                 Verdict::Pass
             }
